@@ -191,3 +191,8 @@ def run(ctx):
         ctx.holds("C06.R5", "_read_header has no handler (errors propagate)", rh.where())
     for h in hs:
         ctx.check("C06.R5", f"_read_header: except {', '.join(handler_names(h))} raises", ends_in_raise(h.body), rh.where(h), f"_read_header: except {', '.join(handler_names(h))}", "a failure to read the header is swallowed")
+
+    # ---- shared ----
+    ctx.borrow("C03", {"C03.R4": "C06.R6"}, "a truncated file is detected only if every raw read of the decoder raises on a short result")
+
+
